@@ -136,12 +136,6 @@ Definition run_script_raw (clk : positive) (evs : list event) : jv :=
   JL [ JL (map (jv_outcome jsres) (run clk sys_init evs)) ].
 
 (* Process.cpu_percent scripts over several Process objects *)
-Definition same_ncpu (evs : list (Z * pevent)) : bool :=
-  match evs with
-  | [] => true
-  | (_, e0) :: _ => forallb (fun oe => ncpu_eff (pe_ncpu (snd oe)) =? ncpu_eff (pe_ncpu e0)) evs
-  end.
 Definition run_proc (clk : positive) (evs : list (Z * pevent)) : jv :=
   JL [ JL (map (jv_outcome jq) (proc_run clk [] evs));
-       JL (map (jv_outcome jq) (spec_proc_run clk [] evs));
-       jbool (same_ncpu evs) ].
+       JL (map (jv_outcome jq) (spec_proc_run clk [] evs)) ].
